@@ -1209,3 +1209,118 @@ Example x2_scan_metadata_hyps :
   md_list (file_events scan_lopts ds_id x2_recs) = [metadata_norm x2_md].
 Proof. vm_compute. repeat split; reflexivity. Qed.
 
+(* --- indexed read against the scan --- *)
+Example x2_abstract_hyps :
+  file_ordered ex_cks /\ Permutation [exA; exB; exC] ex_cks /\
+  (length ex_cks + 1 <= 4)%nat /\ (length (scan_msgs (tw_sel ex_channels x2_ro) ex_cks) + 1 <= 12)%nat /\
+  uids (a_read sel_all FileOrder 4 12 [exA; exB; exC]) = Some (map am_uid (all_msgs ex_cks), (1, 1)%nat).
+Proof.
+  split; [repeat constructor|]. split.
+  - unfold ex_cks. apply (Permutation_cons_app [exB; exC] [] exA). apply Permutation_refl.
+  - split; [vm_compute; lia|]. split; [vm_compute; lia|]. vm_compute. reflexivity.
+Qed.
+
+(* byte level: the loader hypothesis holds for the chunk of the example file *)
+Definition x2_ci : chunkindex := hd x_ci (sm_cis x2_sm).
+Definition x2_ac : achunk := {| ac_start := 5; ac_end := 10; ac_off := 115; ac_msgs := [mk_msg 10 1 0; mk_msg 5 1 1] |}.
+Definition x2_sel : amsg -> bool := tw_sel (sm_channels x2_sm) x2_ro.
+Definition x2_pairs : list (chunkindex * achunk) := [(x2_ci, x2_ac)].
+
+Example x2_loader_ok : loader_ok x2_dall x2_ro x2_sm x2_file x2_sel x2_pairs.
+Proof.
+  intros ci c s Hin.
+  assert (E : ci = x2_ci /\ c = x2_ac) by (destruct Hin as [E|[]]; split; congruence).
+  destruct E as [-> ->]. clear Hin.
+  destruct (load_chunk_i_ok x2_dall x2_ro x2_sm x2_file x2_ci s
+              (take 167 (drop 115 (fs_data x2_file)))
+              {| r_buf := drop 167 (drop 115 (fs_data x2_file)); r_end := None; r_seek := true |}
+              x2_k (k_records x2_k)
+              [ {| en_ts := 10; en_off := 54; en_slot := islot s |};
+                {| en_ts := 5; en_off := 87; en_slot := islot s |} ]) as (s' & Hl & Hs & Hq);
+    try (vm_compute; reflexivity).
+  exists s', [ {| en_ts := 10; en_off := 54; en_slot := islot s |}; {| en_ts := 5; en_off := 87; en_slot := islot s |} ].
+  split; [exact Hl|]. split.
+  - vm_compute. repeat constructor.
+  - split; [exact Hq|]. rewrite Hs, slot_set_map. reflexivity.
+Qed.
+
+Example x2_indexed_bytes_hyps :
+  loader_ok x2_dall x2_ro x2_sm x2_file x2_sel x2_pairs /\ ro_order x2_ro = FileOrder /\
+  Forall2 (ci_match x2_pairs) (sm_cis x2_sm) [x2_ac] /\ file_ordered [x2_ac] /\ Permutation [x2_ac] [x2_ac] /\
+  (exists ms st, indexed_all x2_dall 10 10 x2_ro x2_sm x2_file (i_init x2_ro (sm_cis x2_sm)) [] (O, O) = Ok (ms, EEOF, st)) /\
+  map am_ts (scan_msgs x2_sel [x2_ac]) = [10; 5].
+Proof.
+  split; [exact x2_loader_ok|]. split; [reflexivity|]. split.
+  { replace (sm_cis x2_sm) with [x2_ci] by (vm_compute; reflexivity).
+    constructor; [|constructor]. split; [left; reflexivity|]. vm_compute. repeat split; reflexivity. }
+  split; [repeat constructor|]. split; [apply Permutation_refl|]. split; [|vm_compute; reflexivity].
+  destruct (indexed_all x2_dall 10 10 x2_ro x2_sm x2_file (i_init x2_ro (sm_cis x2_sm)) [] (O, O)) as [[[ms e] st]| | | |] eqn:E;
+    try (vm_compute in E; discriminate).
+  exists ms, st. assert (e = EEOF) as ->; [|reflexivity]. vm_compute in E. inversion E. reflexivity.
+Qed.
+
+(* end to end on the example: the index-based read and the scan of the same file agree, triples,
+   metadata callbacks and end of iteration *)
+Example x2_indexed_eq_scan :
+  match read_messages ds_id x2_dall x2_file [OMetadataCb], read_messages ds_id x2_dall x2_file [OMetadataCb; OUsingIndex false] with
+  | Ok ri, Ok rs =>
+    rr_mode ri = Some MIndexed /\ rr_mode rs = Some MScan /\ rr_msgs ri = rr_msgs rs /\ rr_mds ri = rr_mds rs /\
+    rr_end ri = EEOF /\ rr_end rs = EEOF /\ length (rr_msgs rs) = 2%nat
+  | _, _ => False
+  end.
+Proof. vm_compute. repeat split; reflexivity. Qed.
+
+(* C02 as literally stated fails for a writer call sequence that registers a channel id twice with
+   different content: the summary keeps the first definition (Writer.AddChannel), the scan uses
+   the latest one (slicemap Set in the unindexed iterator) *)
+Definition x3_c1 : channel := {| c_id := 1; c_schema := 0; c_topic := [x74]; c_menc := [x6d]; c_meta := [] |}.
+Definition x3_c1' : channel := {| c_id := 1; c_schema := 0; c_topic := [x75]; c_menc := [x6d]; c_meta := [] |}.
+Definition x3_m2 : message := {| m_chan := 1; m_seq := 2; m_log := 15; m_pub := 15; m_data := [] |}.
+Definition x3_calls : list wcall :=
+  [CHeader {| h_profile := []; h_library := [] |}; CChannel x3_c1; CMessage x2_m1; CChannel x3_c1'; CMessage x3_m2; CClose].
+Definition x3_res : wresult := W x2_opts [x6c] (fun _ b => b) None x3_calls.
+Definition x3_file : fsrc := mem_file (file_of x3_res).
+Definition topics_of (r : outcome readres) : option (option mode * list (bytes * N) * err) :=
+  match r with
+  | Ok r => Some (rr_mode r, map (fun t : triple => (c_topic (snd (fst t)), m_log (snd t))) (rr_msgs r), rr_end r)
+  | _ => None
+  end.
+Example x3_channel_redefinition_refutes :
+  r_new x3_res = None /\ forallb (fun x => match fst x with None => true | _ => false end) (r_calls x3_res) = true /\
+  topics_of (read_messages ds_id x2_dall x3_file []) = Some (Some MIndexed, [([x74], 10); ([x74], 15)], EEOF) /\
+  topics_of (read_messages ds_id x2_dall x3_file [OUsingIndex false]) = Some (Some MScan, [([x74], 10); ([x75], 15)], EEOF).
+Proof. vm_compute. repeat split; reflexivity. Qed.
+
+(* ====================================================================== *)
+(** * 9. packaged statements used by properties/C02.v *)
+
+Theorem C02_random_access_thm : forall ds : doracle,
+  (forall lo pre a data crc post,
+     wf_attach_item lo a data crc ->
+     blen (render (pre ++ IAttach a data crc :: post)) < two63 ->
+     exists ob,
+       get_attachment (mem_file (render (pre ++ IAttach a data crc :: post))) (blen (render pre)) = Ok ob /\
+       ao_log ob = a_log a /\ ao_create ob = a_create a /\ ao_name ob = a_name a /\ ao_media ob = a_media a /\
+       ao_size ob = a_size a /\ ao_data ob = data /\ ao_data_end ob = None /\
+       ao_computed ob = Ok (crc32 (enc_attachment_fields a ++ data)) /\ ao_parsed ob = Ok crc) /\
+  (forall pre m post,
+     wf_metadata m -> wf_item reader_lopts ds (IRec OpMetadata (enc_metadata m)) ->
+     blen (render (pre ++ IRec OpMetadata (enc_metadata m) :: post)) < two63 ->
+     get_metadata ds (mem_file (render (pre ++ IRec OpMetadata (enc_metadata m) :: post))) (blen (render pre))
+     = Ok (metadata_norm m)).
+Proof.
+  intro ds. split.
+  - intros lo pre a data crc post W Hsz. exists (attach_obs_ra a data crc).
+    split; [apply C02_get_attachment_thm; [eapply wf_attach_item_ra; exact W|exact Hsz]|].
+    repeat split; reflexivity.
+  - intros pre m post Wm (_ & _ & _ & Hlen & _) Hsz. apply C02_get_metadata_thm; assumption.
+Qed.
+
+Example x2_random_access_hyps :
+  wf_attach_item reader_lopts x2_att x2_adata x2_acrc /\
+  wf_item reader_lopts ds_id (IRec OpMetadata (enc_metadata x2_md)).
+Proof.
+  split.
+  - unfold wf_attach_item. repeat split; try reflexivity. left. reflexivity.
+  - cbn [wf_item]. repeat split; try discriminate; reflexivity.
+Qed.
